@@ -529,7 +529,7 @@ def gen_expr(repo, res):
 
 @rule(
     "GEN-FORM",
-    ["C06", "C18", "C19"],
+    ["C06", "C18", "C19", "C20"],
     "C/form.py and numba/form.py `generator` (with common.integral_data) are interpreted from source on sample FormIR "
     "records (unsorted subdomain ids, the default integral, groups with two cell types, empty types, coefficients that "
     "dropped out, scalar and tensor constants, a missing element hash). The emitted text is read back: offsets must be "
@@ -593,7 +593,7 @@ def gen_form(repo, res):
             try:
                 out = it.call_f(g, [copy.deepcopy(ir), {}])
             except Raised as e:
-                res.fail(key, f"{be} form generator raises ({e.what}) on `{label}`", repo.mod(fm).line(g.node), props=("C06", "C18") if be == "C" else ("C18",))
+                res.fail(key, f"{be} form generator raises ({e.what}) on `{label}`", repo.mod(fm).line(g.node), props=("C06", "C18") if be == "C" else ("C18", "C20"))
                 continue
             text = out[-1] if isinstance(out, tuple) else out
             if not isinstance(text, str):
@@ -623,7 +623,7 @@ def gen_form(repo, res):
                         exp_ids.append(ids[i])
                         n += 1
                 exp_off.append(exp_off[-1] + n)
-            props = ("C06", "C18") if be == "C" else ("C18",)
+            props = ("C06", "C18") if be == "C" else ("C18", "C20")
             loc = repo.mod(fm).line(g.node)
             n_off, offs = arr("form_integral_offsets")
             if offs is None or [int(x) for x in offs] != exp_off or n_off != len(exp_off):
@@ -699,7 +699,7 @@ def gen_form(repo, res):
         res.ob(key)
         a, b = results.get(("C", label)), results.get(("numba", label))
         if a is not None and b is not None and a != b:
-            res.fail(key, f"`{label}`: C emits (offsets, kernels, ids, positions) = {a}, numba emits {b}", "ffcx/codegeneration/numba/form.py", props=("C18",))
+            res.fail(key, f"`{label}`: C emits (offsets, kernels, ids, positions) = {a}, numba emits {b}", "ffcx/codegeneration/numba/form.py", props=("C18", "C20"))
 
 
 # ---- GEN-PARTITION -------------------------------------------------------------------------------------------
